@@ -10,12 +10,15 @@ TInit == /\ tid \in 1..Len(Traces) /\ observed = {} /\ batch = {} /\ nchunks = 1
          /\ phase = 0 /\ order = << >> /\ holder = << >> /\ allowed = {} /\ best = {}
 TNext == UNCHANGED <<vars, tid>>
 Ok == LET obs == SetOf(T.observed)  bt == SetOf(T.batch)  cs == CandOf(obs, bt)  n == T.nchunks
-          sc(p) == T.score[p + 1]
+          \* size_mode: the scores were produced by the real calculate_scores command with the shipped SizeScorer,
+          \* i.e. the number of experiments the candidate was scored on (its own rows, or one per condition of the union with the batch)
+          sizeOf(p) == IF bt \cap Plates = {} THEN Cardinality(RowsOf(p)) ELSE Cardinality({Fix.klass[x] : x \in Union(p, bt \cap Plates)})
+          sc(p) == IF T.size_mode THEN sizeOf(p) ELSE T.score[p + 1]
           al == SetOf(T.allowed) IN
       /\ Check(tid, 1, "chunk-plates", \A i \in 0..n - 1 : T.chunks[i + 1].plates = ChunkOf(cs, n, i))
       /\ Check(tid, 1, "each-candidate-scored-once",
                \A p \in SetOf(cs) : Cardinality({<<i, y>> \in (1..n) \X (1..Len(cs)) : y <= Len(T.chunks[i].plates) /\ T.chunks[i].plates[y] = p}) = 1)
-      /\ Check(tid, 1, "conditioned-rows", \A i \in 1..n : \A y \in 1..Len(T.chunks[i].plates) :
+      /\ Check(tid, 1, "conditioned-rows", T.size_mode \/ \A i \in 1..n : \A y \in 1..Len(T.chunks[i].plates) :
                SetOf(T.chunks[i].rows[y]) \in CondChoices(T.chunks[i].plates[y], bt \cap Plates))
       /\ Check(tid, 2, "holder-after-combine", T.holder = [x \in 1..Len(T.order_cat) |-> <<T.order_cat[x], sc(T.order_cat[x])>>])
       /\ Check(tid, 2, "holder-holds-every-candidate-once", SetOf(T.order_cat) = SetOf(cs) /\ Len(T.order_cat) = Len(cs))
